@@ -625,6 +625,11 @@ func isWildcardSubexpression(re *syntax.Regexp) bool {
 }
 
 func isSafeForReverseSuffix(re *syntax.Regexp) bool {
+	// Lazy quantifiers (`.*?x`, `.+?x`) need leftmost-first thread priorities to pick
+	// the match end; the suffix searchers assume greedy semantics throughout.
+	if hasNonGreedyQuantifier(re) {
+		return false
+	}
 	switch re.Op {
 	case syntax.OpConcat:
 		if len(re.Sub) < 2 {
@@ -872,6 +877,11 @@ func isWildcardOp(re *syntax.Regexp) bool {
 //   - `A*20*` - Star of Literal (not AnyChar or CharClass)
 //   - Patterns with Star that could match zero (zero-width issues)
 func isSafeForReverseInner(re *syntax.Regexp) bool {
+	// Lazy quantifiers (`.*?x.+`) need leftmost-first thread priorities to pick the
+	// match end; the inner searcher's shortcuts assume greedy semantics throughout.
+	if hasNonGreedyQuantifier(re) {
+		return false
+	}
 	switch re.Op {
 	case syntax.OpConcat:
 		if len(re.Sub) < 2 {
